@@ -11,7 +11,7 @@ git apply OUT/patch.diff || { echo '{"ok": false, "why": "patch does not apply"}
 cargo test --workspace --no-fail-fast --offline -j ${JOBS:-8} > $OUT/confirm_suite.log 2>&1; SUITE=$?
 P=$(grep -E "^test result" $OUT/confirm_suite.log | awk '{p+=$4; f+=$6} END {print p" "f}')
 # file_utils::file_metadata tests are flaky under load (unrelated to any seeded change): re-run that crate serially once
-if [ $SUITE -ne 0 ] && ! grep -E "^test .* FAILED" $OUT/confirm_suite.log | grep -qv "file_metadata::tests::"; then
+if [ $SUITE -ne 0 ] && ! grep -E "^test [A-Za-z0-9_:]+ \.\.\. FAILED" $OUT/confirm_suite.log | grep -qv "file_metadata::tests::"; then
   cargo test -p file_utils --offline -j ${JOBS:-8} -- --test-threads=1 > $OUT/confirm_suite_rerun_file_utils.log 2>&1 && SUITE=0 && P="$P (file_utils flaky tests re-run serially: pass)"
 fi
 DEMO=$(python3 -c "import json;print(json.load(open('$OUT/meta.json'))['demo_cmd'])")
